@@ -21,7 +21,8 @@ RULE = ("grid: enumeration of transfer kind {RETR, STOR, APPE, LIST, MLSD} x siz
         "(150,426,226 | 150,done,226 | 226,150,done | with 425 when no data connection is made), never silence or a "
         "closed session; the data connection is closed by the server; received / stored bytes are a prefix; the "
         "follow-up behaves normally. Non-trivial = the ABOR arrives while a transfer task exists; distinct by the "
-        "enumerated tuple.")
+        "enumerated tuple. "
+        "later: enumerated (aborted kind) x (later kind) x (data connection closed / reset half way / run to its end): one final reply, PWD next, silence; non-trivial = the later transfer lost its data connection.")
 ASSUMPTIONS = [
     "simnet; backend delays are virtual; wait_future_timeout=3",
     "exhaustive with respect to the enumerated grid only",
@@ -658,6 +659,116 @@ def replay_double(case):
     judge_double(c, simnet.run(lambda loop: _double(loop, *c)))
 
 
+# ---------------------------------------------------------------- later transfers of a session that has aborted one
+async def _later(loop, kind, first_at, kind2, drop):
+    """ABOR interrupts `kind`; later the same session runs `kind2`, whose data connection the client drops half way
+    (drop = fin | rst) or which runs to its end (drop = None): each command still gets exactly one final reply."""
+    ctl = harness.Ctl()
+    ctl.delays = {"read": 0.2, "write": 0.2, "list.next": 0.2}
+    server = aioftp.Server(path_io_factory=harness.instrument(aioftp.MemoryPathIO, ctl), block_size=BLOCK, wait_future_timeout=5)
+    await server.start(HOST, PORT)
+    tree = {"/": DIR, "/g": bytes(range(BLOCK * 6)), "/d": DIR}
+    for i in range(6):
+        tree["/d/e%d" % i] = b"x"
+    harness.mem_populate(server, tree)
+    raw = harness.Raw(HOST, PORT, patience=30)
+    await raw.connect()
+    await raw.cmd("USER anonymous")
+    lines = {"RETR": "RETR /g", "STOR": "STOR /n", "APPE": "APPE /g", "LIST": "LIST /d", "MLSD": "MLSD /d"}
+    out = dict(first=[], second=[], follow=None, extra=None)
+    await raw.cmd("EPSV")
+    dr, dw = await raw.open_data()
+    code, _ = await raw.cmd(lines[kind])
+    out["first"].append(code)
+    if kind in ("STOR", "APPE"):
+        dw.write(b"A" * BLOCK)
+    await asyncio.sleep(first_at)
+    raw.send("ABOR")
+    for _ in range(2):
+        c, _l = await raw.reply(8)
+        out["first"].append(c)
+    dw.close()
+    if out["first"] != ["150", "426", "226"]:
+        out["skipped"] = True
+    else:
+        await raw.cmd("EPSV")
+        dr, dw = await raw.open_data()
+        await asyncio.sleep(0.1)
+        raw.send(lines[kind2])
+        c, _l = await raw.reply(8)
+        out["second"].append(c)
+        if c == "150":
+            if kind2 in ("STOR", "APPE"):
+                dw.write(b"B" * BLOCK)
+                await asyncio.sleep(0.5)
+                if drop is None:
+                    dw.write(b"C" * BLOCK)
+                    await asyncio.sleep(0.3)
+            else:
+                await asyncio.sleep(0.5)
+                if drop is None:
+                    await harness.read_all(dr, 30)
+            if drop == "rst":
+                dw.transport.abort()
+            else:
+                dw.close()
+            while len(out["second"]) < 5:
+                c, _l = await raw.reply(8)
+                if c == "SILENCE":
+                    break
+                out["second"].append(c)
+                if c == "EOF":
+                    break
+        if "EOF" not in out["second"]:
+            out["follow"] = (await raw.cmd("PWD"))[0]
+            quiet, line = await raw.silence(3)
+            out["extra"] = None if quiet else repr(line)
+    raw.close()
+    await asyncio.sleep(2)
+    out["open_handles"] = ctl.open_handles
+    await asyncio.wait_for(server.close(), 1000)
+    return out
+
+
+def later_cases(tier):
+    return [(k, a, k2, drop) for k in KINDS for a in ((0.3,) if tier == "quick" else (0.05, 0.3, 0.9)) for k2 in KINDS
+            for drop in ("fin", "rst", None)]
+
+
+def judge_later(case, out):
+    kind, first_at, kind2, drop = case
+    if out.get("skipped"):
+        return
+    detail = dict(aborted=kind, abor_after=first_at, then=kind2, data_connection_dropped=drop, **out)
+    r = out["second"]
+    if "EOF" in r:
+        raise Violation(f"C14/later/session_closed/{kind2}", detail)
+    # exactly one final reply behind the 150: completion, or 426 when the data connection was lost
+    if len(r) != 2 or r[0] != "150" or r[1] not in ((done_code(kind2),) if drop is None else (done_code(kind2), "426")):
+        raise Violation(f"C14/later/reply_sequence_{'+'.join(r or ['none'])}/{kind2}", detail)
+    if out["follow"] != "257" or out["extra"] is not None:
+        raise Violation(f"C14/later/session_not_usable_afterwards/{kind2}", detail)
+    if out["open_handles"]:
+        raise Violation(f"C14/later/backend_handle_left_open/{kind2}", detail)
+
+
+def part_later(ctx):
+    for case in later_cases(ctx.tier)[ctx.shard::ctx.nshards]:
+        out = simnet.run(lambda loop: _later(loop, *case))
+        ctx.count(("later",) + case, not out.get("skipped") and case[3] is not None,
+                  sample=dict(aborted=case[0], abor_after=case[1], then=case[2], drop=case[3], first=out["first"], second=out["second"]),
+                  classes=["later_" + case[2], "later_drop_" + str(case[3])] + (["later_skipped"] if out.get("skipped") else []))
+        try:
+            judge_later(case, out)
+        except Violation as v:
+            ctx.fail(v.sig, dict(kind="later", case=list(case)), v.detail)
+
+
+def replay_later(case):
+    c = tuple(case["case"])
+    judge_later(c, simnet.run(lambda loop: _later(loop, *c)))
+
+
 # ---------------------------------------------------------------- ABOR right behind the command, handler giving up k loop iterations
 async def _yields(loop, kind, k, gap_iterations):
     """The pre-transfer checks of the backend give up exactly k bare loop iterations (no virtual time): the ABOR that was
@@ -733,4 +844,4 @@ def replay_yields(case):
 
 
 def plan(tier):
-    return [("grid", 16), ("sweep", 8), ("tapes", 8), ("backpressure", 6), ("double", 8), ("yields", 8)]
+    return [("grid", 16), ("sweep", 8), ("tapes", 8), ("backpressure", 6), ("double", 8), ("yields", 8), ("later", 8)]
